@@ -146,6 +146,15 @@ pub fn plan(id: &str, tier: &str, seed: u64, round: u64) -> Plan {
                     if c.const_into_str {
                         c.allow_transparent = false;
                     }
+                    // some programs parse through the phf map (field-less, Clone)
+                    if i % 6 == 1 {
+                        // the phf map is a static: its values must be const-constructible, i.e. field-less
+                        c.allow_fields = false;
+                        c.allow_transparent = false;
+                        c.allow_generics = false;
+                        c.sync_only = true;
+                        c.phf = true;
+                    }
                     gen::gen_string(&mut rg, &c)
                 })
                 .collect();
@@ -153,7 +162,7 @@ pub fn plan(id: &str, tier: &str, seed: u64, round: u64) -> Plan {
             Plan {
                 specs,
                 params: params(&[("draws", if thorough { 16 } else { 6 })]),
-                strum_features: vec!["derive".into()],
+                strum_features: vec!["derive".into(), "phf".into()],
                 profiles: vec!["dev"],
                 policy: Policy::TaggedOnly,
                 rule: "programs: prefix-less enums deriving EnumString + Display + AsRefStr + IntoStaticStr + EnumMessage, all 16 accepted serialize_all strings (each forced regularly) or none, every mix of serialize/to_string, all kinds, generics, const_into_str; every enabled non-default non-transparent variant is built with generated payloads, printed by every printer (Display, as_ref, From<E>, From<&E>, into_str) and parsed back: same variant, payload reset to defaults; every get_serializations() string parses back. Non-trivial = printed name differs from the identifier; distinct by (program, variant, printer) and (program, variant, serialization).".into(),
